@@ -118,4 +118,133 @@ theorem var_nonneg (v : List ℝ) (unbiased : Bool) (hn : (if unbiased then 2 el
     have : (2:ℝ) ≤ (v.length : ℝ) := by exact_mod_cast hn
     simp only [if_true]; linarith
 
+/-! ## extrema and their positions -/
+
+/-- `max` returns an element of the vector that no element exceeds -/
+theorem max_spec (v : List ℝ) (m : ℝ) (h : VecTools.max v = .ok m) : m ∈ v ∧ ∀ y ∈ v, y ≤ m := by
+  cases v with
+  | nil => simp [VecTools.max, extremum] at h
+  | cons x xs =>
+    simp only [VecTools.max, extremum, Except.ok.injEq] at h
+    obtain ⟨hm, hall⟩ := extremum_fold_spec gt_strictWeak xs x
+    rw [h] at hm hall
+    exact ⟨hm, fun y hy => by have := hall y hy; simpa [Scalar.gtb] using this⟩
+
+/-- `min` returns an element of the vector that is below every element -/
+theorem min_spec (v : List ℝ) (m : ℝ) (h : VecTools.min v = .ok m) : m ∈ v ∧ ∀ y ∈ v, m ≤ y := by
+  cases v with
+  | nil => simp [VecTools.min, extremum] at h
+  | cons x xs =>
+    simp only [VecTools.min, extremum, Except.ok.injEq] at h
+    obtain ⟨hm, hall⟩ := extremum_fold_spec lt_strictWeak xs x
+    rw [h] at hm hall
+    exact ⟨hm, fun y hy => by have := hall y hy; simpa using this⟩
+
+/-- `max`/`min` of a non-empty vector succeed -/
+theorem max_min_defined (v : List ℝ) (h : v ≠ []) : (∃ m, VecTools.max v = .ok m) ∧ (∃ m, VecTools.min v = .ok m) := by
+  cases v with
+  | nil => exact absurd rfl h
+  | cons x xs => exact ⟨⟨_, rfl⟩, ⟨_, rfl⟩⟩
+
+/-- `whichMax` returns the *first* position of a maximal element: the predicate the driver
+evaluates on the implementation -/
+theorem whichMax_first (v : List ℝ) (p : Nat) (h : whichMax v = .ok p) :
+    IsFirstExtremum (fun y m => Scalar.gtb y m) v p :=
+  whichExtremum_spec gt_strictWeak v p h
+
+/-- … spelled out: `v[p]` exists, nothing exceeds it, everything before it is strictly smaller -/
+theorem whichMax_first_iff (v : List ℝ) (p : Nat) (h : whichMax v = .ok p) :
+    ∃ m, v[p]? = some m ∧ (∀ y ∈ v, y ≤ m) ∧ (∀ y ∈ v.take p, y < m) := by
+  obtain ⟨m, hm, h1, h2⟩ := (isFirstExtremum_iff _ v p).mp (whichMax_first v p h)
+  exact ⟨m, hm, fun y hy => by simpa [Scalar.gtb] using h1 y hy, fun y hy => by simpa [Scalar.gtb] using h2 y hy⟩
+
+/-- `whichMin` returns the first position of a minimal element -/
+theorem whichMin_first (v : List ℝ) (p : Nat) (h : whichMin v = .ok p) :
+    ∃ m, v[p]? = some m ∧ (∀ y ∈ v, m ≤ y) ∧ (∀ y ∈ v.take p, m < y) := by
+  obtain ⟨m, hm, h1, h2⟩ := (isFirstExtremum_iff _ v p).mp (whichExtremum_spec lt_strictWeak v p h)
+  exact ⟨m, hm, fun y hy => by simpa using h1 y hy, fun y hy => by simpa using h2 y hy⟩
+
+/-- the position answered is unique: any position with the first-maximum property is the answer -/
+theorem whichMax_unique (v : List ℝ) (p q : Nat) (h : whichMax v = .ok p)
+    (hq : IsFirstExtremum (fun y m => Scalar.gtb y m) v q) : q = p := by
+  obtain ⟨m, hm, h1, h2⟩ := (isFirstExtremum_iff _ v p).mp (whichMax_first v p h)
+  obtain ⟨m', hm', h1', h2'⟩ := (isFirstExtremum_iff _ v q).mp hq
+  have hmv : m ∈ v := List.mem_of_getElem? hm
+  have hmv' : m' ∈ v := List.mem_of_getElem? hm'
+  rcases Nat.lt_trichotomy q p with hlt | heq | hgt
+  · -- v[q] is before p, so v[q] < m; but m ≤ m' = v[q]
+    have hin : m' ∈ v.take p := by
+      rw [List.mem_take_iff_getElem]
+      have hql : q < v.length := by
+        rcases Nat.lt_or_ge q v.length with h | h
+        · exact h
+        · simp [List.getElem?_eq_none h] at hm'
+      refine ⟨q, by omega, ?_⟩
+      rw [List.getElem?_eq_getElem hql] at hm'; exact Option.some.inj hm'
+    have a := h2 m' hin
+    have b := h1' m hmv
+    simp [Scalar.gtb] at a b; linarith
+  · exact heq
+  · have hin : m ∈ v.take q := by
+      rw [List.mem_take_iff_getElem]
+      have hpl : p < v.length := by
+        rcases Nat.lt_or_ge p v.length with h | h
+        · exact h
+        · simp [List.getElem?_eq_none h] at hm
+      refine ⟨p, by omega, ?_⟩
+      rw [List.getElem?_eq_getElem hpl] at hm; exact Option.some.inj hm
+    have a := h2' m hin
+    have b := h1 m' hmv'
+    simp [Scalar.gtb] at a b; linarith
+
+/-! ## order and median -/
+
+/-- `order` answers a permutation of the positions along which the vector is non-decreasing
+(the predicate the driver evaluates on the implementation; `std::sort` may order ties differently
+from the model, every such answer satisfies the same predicate) -/
+theorem order_sorted_perm (v : List ℝ) (idx : List Nat) (h : order v = .ok idx) :
+    IsSortingPerm Scalar.ltb v idx := order_spec v idx h
+
+/-- … spelled out -/
+theorem order_sorted_perm_iff (v : List ℝ) (idx : List Nat) (h : order v = .ok idx) :
+    idx.Perm (List.range v.length) ∧
+      (idx.filterMap (fun i => v[i]?)).Pairwise (fun a b => a ≤ b) := by
+  obtain ⟨hp, hs⟩ := order_spec v idx h
+  exact ⟨hp, hs.imp (fun {a b} hab => by simpa using hab)⟩
+
+/-- `order` succeeds exactly on non-empty vectors; the empty vector raises EmptyVectorException -/
+theorem order_defined_iff (v : List ℝ) : (∃ idx, order v = .ok idx) ↔ v ≠ [] := by
+  unfold order
+  constructor
+  · rintro ⟨idx, h⟩ hv; subst hv; simp at h
+  · intro hv
+    have : v.length ≠ 0 := by simpa using hv
+    rw [if_neg this]; exact ⟨_, rfl⟩
+
+/-- `median` of a non-empty vector never reads out of range, returns a median — at least half of
+the elements are `≤ m` and at least half are `≥ m` — and leaves the vector sorted (a permutation
+of the input, non-decreasing when there are at least two elements) -/
+theorem median_spec (v : List ℝ) (hv : v ≠ []) :
+    ∃ m s, median v = .ok (m, s) ∧ IsMedian Scalar.ltb v m ∧ s.Perm v ∧
+      (2 ≤ v.length → SortedBy Scalar.ltb s) := median_spec' v hv
+
+/-- … the counting statement spelled out -/
+theorem median_spec_iff (v : List ℝ) (hv : v ≠ []) :
+    ∃ m s, median v = .ok (m, s) ∧
+      v.length ≤ 2 * v.countP (fun x => decide (x ≤ m)) ∧ v.length ≤ 2 * v.countP (fun x => decide (m ≤ x)) := by
+  obtain ⟨m, s, h, ⟨h1, h2⟩, -, -⟩ := median_spec' v hv
+  refine ⟨m, s, h, ?_, ?_⟩
+  · convert h1 using 3; funext x; simp only [Scalar.ltb]
+    by_cases hx : m < x
+    · simp [hx, not_le.mpr hx]
+    · simp [hx, not_lt.mp hx]
+  · convert h2 using 3; funext x; simp only [Scalar.ltb]
+    by_cases hx : x < m
+    · simp [hx, not_le.mpr hx]
+    · simp [hx, not_lt.mp hx]
+
+/-- the median of the empty vector is the documented 0 -/
+theorem median_empty : median ([] : List ℝ) = .ok (0, []) := by
+  simp [median]
+
 end Bpp.C07
